@@ -159,23 +159,56 @@ def enclosing_stmt(pm: Dict[ast.AST, ast.AST], n: ast.AST) -> Optional[ast.stmt]
     return n
 
 
-def guards_of(pm: Dict[ast.AST, ast.AST], n: ast.AST) -> List[Tuple[ast.expr, bool]]:
-    """The (test, polarity) of the If/While/IfExp statements enclosing node n, innermost
-    last. polarity False = node lies in the else branch."""
+def _always_exits(block) -> bool:
+    """Does every path through the statement list leave the enclosing block (return / raise / continue / break)?"""
+    if not block:
+        return False
+    last = block[-1]
+    if isinstance(last, (ast.Return, ast.Raise, ast.Continue, ast.Break)):
+        return True
+    if isinstance(last, ast.If):
+        return bool(last.orelse) and _always_exits(last.body) and _always_exits(last.orelse)
+    return False
+
+
+def guards_of(pm: Dict[ast.AST, ast.AST], n: ast.AST, early_exits: bool = True) -> List[Tuple[ast.expr, bool]]:
+    """The (test, polarity) of the conditions under which node n is reached, innermost last: the enclosing If / While /
+    IfExp (polarity False = n lies in the else branch) and - guard-clause form - every earlier sibling `if c: ... return`
+    (polarity False) or `if c: ... else: return` (polarity True) of a block that contains n. So `if not t: return x` followed
+    by the rest and `if t: <rest> else: return x` give the rest the same conditions."""
     out = []
     child = n
     p = pm.get(n)
     while p is not None:
+        here = []
+        if early_exits and isinstance(child, ast.stmt):
+            for fld in ("body", "orelse", "finalbody"):
+                block = getattr(p, fld, None)
+                if isinstance(block, list) and any(child is s for s in block):
+                    for s in block:
+                        if s is child:
+                            break
+                        if isinstance(s, ast.If):
+                            if _always_exits(s.body) and not _always_exits(s.orelse):
+                                here.append((s.test, False))
+                            elif s.orelse and _always_exits(s.orelse) and not _always_exits(s.body):
+                                here.append((s.test, True))
+        # innermost last: conditions gathered at this level come after the enclosing statement's own test
         if isinstance(p, (ast.If, ast.While)):
             if any(child is s for s in p.body):
+                out.extend(reversed(here))
                 out.append((p.test, True))
+                here = []
             elif any(child is s for s in p.orelse):
+                out.extend(reversed(here))
                 out.append((p.test, False))
+                here = []
         elif isinstance(p, ast.IfExp):
             if child is p.body:
                 out.append((p.test, True))
             elif child is p.orelse:
                 out.append((p.test, False))
+        out.extend(reversed(here))
         child = p
         p = pm.get(p)
     out.reverse()
